@@ -50,6 +50,12 @@ pub fn main_for(prop: &'static str) {
         }
         progs.extend(depth2(&ls));
         progs.extend(interleaved_lengths(ch));
+        if !quick {
+            // depth-3 trees over a small alphabet
+            progs.extend(small_trees(3, &[Leaf::Probe(2), Leaf::Iter(1), Leaf::Equil], &[Un::ScaleHalf, Un::Delay(1), Un::Clip]));
+            progs.sort_by_key(|n| n.show());
+            progs.dedup();
+        }
         total_programs += progs.len();
         ctx.set(&format!("programs.{fam}"), json!(progs.len()));
         progs.par_iter().for_each(|p| {
@@ -73,7 +79,7 @@ pub fn main_for(prop: &'static str) {
     ctx.set("programs", json!(total_programs));
     ctx.set("horizon_calls_primary_run", json!(nexts.load(Relaxed)));
     ctx.set("exhaustive", json!(true));
-    ctx.set("exhaustive_scope", json!(format!("every adaptor tree of depth <=2 and every unary stack of depth <={} over the leaf alphabet, 4 frame families; right operands of add_amp/mul_amp are unary stacks of depth <=1 in the companion family; deeper programs are not explored", if quick { 3 } else { 4 })));
+    ctx.set("exhaustive_scope", json!(format!("every adaptor tree of depth <=2 and every unary stack of depth <={} over the leaf alphabet, 4 frame families; right operands of add_amp/mul_amp are unary stacks of depth <=1 in the companion family; deeper programs are not explored (thorough adds every depth-3 tree over 3 leaves x 3 unary adaptors)", if quick { 3 } else { 4 })));
     if prop == "C04" {
         ctx.rule("programs: leaves = instrumented probe (length 0..3), from_iter, from_interleaved_samples_iter, equilibrium, gen, gen_mut; unary = map, scale_amp(0.5), scale_amp(-1), offset_amp, scale_amp_per_channel, offset_amp_per_channel, clip_amp, inspect, delay(0|1|2); binary = add_amp, mul_amp (right operand in the Signed / Float companion family), zip_map; all trees of depth <=2, all unary stacks to depth 3 (quick) / 4 (thorough); families f32, [i16;2], [u8;3], [f64;2]; each program run for longest source + total delay + 3 calls: frame n == interpreter (real Frame op applied pointwise, clip = clamp of the signed amplitude, delay = k equilibrium frames), every probe pulled exactly once per call and not at all while a delay above it is emitting silence, inspect saw exactly the frames that passed, and for every j <= horizon the program built over a borrowed probe, run j steps and dropped leaves the probe at frame j - delays; non-trivial = a program with at least one adaptor, distinct by (family, program)");
     } else {
